@@ -153,11 +153,11 @@ def one(ctx, pts, knees, link, t, mode, family):
         ctx.fail('predicate', 'completes', site, case, repr(e)[:200])
         ctx.count(family + ':' + mode, n=n)
         return
-    labels = [int(v) for v in np.asarray(link_fn(link)(pts[ka], t)).tolist()]
+    labels = [int(v) for v in np.asarray(link_fn(link)(pts[ka], t)).tolist()] if len(knees) else []
     G = groups_of(labels, knees)
     d = ctx.get_driver()
     mg = d.call('groups', [core.nats(labels), core.nats(knees)])[0]
-    if [core.parse_nats(g) for g in mg.split(';')] != G:
+    if [core.parse_nats(g) for g in mg.split(';') if g != ''] != G:
         ctx.fail('correspondence', 'groupByLabels', site, case, dict(model=mg, harness=G))
     # ---- generic shape
     if any(a >= b for a, b in zip(out, out[1:])) or not set(out) <= set(knees):
@@ -209,7 +209,9 @@ def one(ctx, pts, knees, link, t, mode, family):
             rows.append(hull_err(pts, g, hw) if len(g) > 1 and len(hw) > 1 else [0.0] * len(g))
             if len(per[G.index(g)]) > 1:
                 ctx.fail('predicate', 'hull-mode-at-most-one-member-per-cluster', site, case, dict(out=out, cluster=g))
-            if not hw and per[G.index(g)]:
+            # the property quantifies over knee sets with at least 2 knees; a lone knee is returned unchanged by every mode (`if len(knees) <= 1`),
+            # the model does the same (clusterFilterHull_excludes_needs_two) and the correspondence above compares the two there
+            if not hw and per[G.index(g)] and len(knees) >= 2:
                 ctx.fail('predicate', 'hull-mode-none-from-cluster-without-hull-point', site, case, dict(out=out, cluster=g, hull=hull))
             if len(hw) > 1 and len(g) > 1:
                 ctx.tag('hull-multi-point-cluster')
@@ -252,12 +254,17 @@ def one(ctx, pts, knees, link, t, mode, family):
 def run(ctx):
     rng = ctx.rng
     quick = ctx.tier == 'quick'
+    # fewer than 2 knees is outside the property's quantifier: only completion, shape and the model correspondence are judged there
+    w = np.array([[0, 10], [1, 6], [2, 7], [3, 3], [4, 2], [5, 0]], float)
+    one(ctx, w, [2], 'single', 0.1, 'hull', 'corpus-single-knee')
     for _ in range(700 if quick else 15000):
         n = rng.randrange(6, 60) if rng.random() < 0.9 else rng.randrange(4, 6)
         pts, fam = gen.dyadic_curve(rng, n, scale_exp=0)
         pts, vt = gen.magnitude(rng, pts, 0.2, ('xytiny30', 'xtiny30', 'ytiny30', 'xyhuge30', 'yoff30'))
         fam += vt
         k = rng.randrange(2, min(n - 2, 12) + 1)
+        if rng.random() < 0.05:
+            k = rng.choice([0, 1])                           # the early-return paths: no knee, a single knee
         knees = sorted(rng.sample(range(1, n - 1), k))
         link = rng.choice(LINK)
         t = rng.choice([0.01, 0.05, 0.1, 0.2, 0.3, 0.5, 1.0, 1.5, 2.0 ** -12])
